@@ -237,6 +237,9 @@ class Folder:
             return Symbol(r.qual)
         if r is not None and hasattr(r, "qual"):
             return Symbol(r.qual)
+        if n in ("int", "float", "str", "bool", "list", "dict", "tuple",
+                 "set", "len", "abs", "sum", "min", "max"):
+            return Symbol("builtins." + n)
         raise NotConst("name %s" % n)
 
     def _attr(self, e, module, cls, env):
